@@ -62,6 +62,9 @@ class ForInvariant:
                     pass
                 except _Break:
                     raise Unsupported("break inside a loop verified by invariant")
+                except PyExc as e:
+                    ctx.check_exception_now(e)
+                    raise
                 for nm, term in self.holds(interp, fr, j + 1):
                     ctx.oblige(f"loop[{self.name}]:preserved:{nm}", term, kind="invariant")
             finally:
@@ -96,6 +99,9 @@ class WhileInvariant:
                     pass
                 except _Break:
                     raise Unsupported("break inside a loop verified by invariant")
+                except PyExc as e:
+                    ctx.check_exception_now(e)
+                    raise
                 for nm, term in self.holds(interp, fr):
                     ctx.oblige(f"loop[{self.name}]:preserved:{nm}", term, kind="invariant")
                 if v0 is not None:
